@@ -423,6 +423,23 @@ def enum_ratio_boundaries(tier, seed):
     return out
 
 
+def enum_big_constraints(tier, seed):
+    """Flat models carrying one constraint (A1|..|An) => (B1&..&Bm) or (A1|..|An) => !(B1|..|Bm) whose n*m clauses
+    straddle the thresholds an implementation may have (C18's bipartite family): complex, pseudo-complex, not
+    strict-complex, at any size."""
+    from vf.props import c18
+    out = []
+    for c in c18.enum_bipartite(tier, seed):
+        n, m = c["shape"]
+        if n * m < 60 or (tier != "thorough" and n * m > 1100 and (n + m) % 3):
+            continue
+        names = [f"A{i}" for i in range(n)] + [f"B{i}" for i in range(m)]
+        root = build.feat("Root", [build.rel(0, 1, [build.feat(x)]) for x in names])
+        out.append({"models": [{"root": root, "ctcs": [{"name": "Big", "ast": c["ast"]}]}],
+                    "steps": [{"model": 0, "filter": None, "shared": False}]})
+    return out
+
+
 def nontrivial(case):
     if sum(1 for s in case["steps"] if s["shared"]) >= 2:
         return True
@@ -459,6 +476,8 @@ def classes(case):
 SUBS = [
     Sub("ratio-boundaries", check, enum=enum_ratio_boundaries, nontrivial=lambda case: True,
         classes=lambda case: {"ratio-boundary"}),
+    Sub("big-constraints", check, enum=enum_big_constraints, nontrivial=lambda case: True,
+        classes=lambda case: {"big-constraint"}),
     Sub("histories", check, gen=lambda tier: histories(), nontrivial=nontrivial, classes=classes,
         n={"quick": 800, "thorough": 6000},
         essential=["mixed-decomposition", "no-ctcs", "root-only", "shared-object-reused", "filtered", "in-place-edit"]),
